@@ -445,6 +445,25 @@ def bindDest (dest : Dest) (v : Value) : Except Err Block :=
       else .ok ((names.zip items).filter (fun kv => kv.1 != "_"))
     | _ => .error (.typeError "Tuple")
 
+/-- The (type, variant index) a pattern's variant symbol denotes. -/
+def patKey : Value → Option (String × Nat)
+  | .enumV t i _ => some (t, i)
+  | .enumC t i => some (t, i)
+  | _ => none
+
+/-- Bindings a matching case introduces; `none` = "this variant has been redefined
+and previously had/didn't have a payload: ignore the case". -/
+def bindPayload : Option Value → Option Dest → Option (Except Err Block)
+  | some pl, some (.sym n) => some (.ok (if n == "_" then [] else [(n, pl)]))
+  | some pl, some (.destr names) =>
+    match pl with
+    | .tuple items =>
+      if items.length != names.length then some (.error (.tupleSize names.length items.length))
+      else some (.ok ((names.zip items).filter (fun kv => kv.1 != "_")))
+    | _ => some (.error (.typeError "tuple-payload"))
+  | none, none => some (.ok [])
+  | _, _ => none
+
 /-- `eval_match_cases` after the scrutinee was popped. -/
 def matchCases (s : Program) (f : Frame) (used : Bool) (ty : String) (idx : Nat)
     (payload : Option Value) : List Case → Except Err Frame
@@ -454,26 +473,14 @@ def matchCases (s : Program) (f : Frame) (used : Bool) (ty : String) (idx : Nat)
     match getVar s f variant with
     | none => .error (.badPattern variant)
     | some pv =>
-      let key : Option (String × Nat) := match pv with
-        | .enumV t i _ => some (t, i)
-        | .enumC t i => some (t, i)
-        | _ => none
-      match key with
+      match patKey pv with
       | none => .error (.badPattern variant)
       | some (pty, pidx) =>
         if ty == pty && idx == pidx then
-          match payload, dest with
-          | some pl, some d =>
-            match d with
-            | .sym n => .ok (evalBlock { f with nextBlock := if n == "_" then [] else [(n, pl)] } used body)
-            | .destr names =>
-              match pl with
-              | .tuple items =>
-                if items.length != names.length then .error (.tupleSize names.length items.length)
-                else .ok (evalBlock { f with nextBlock := (names.zip items).filter (fun kv => kv.1 != "_") } used body)
-              | _ => .error (.typeError "tuple-payload")
-          | none, none => .ok (evalBlock { f with nextBlock := [] } used body)
-          | _, _ => matchCases s f used ty idx payload rest
+          match bindPayload payload dest with
+          | some (.ok bs) => .ok (evalBlock { f with nextBlock := bs } used body)
+          | some (.error e) => .error e
+          | none => matchCases s f used ty idx payload rest
         else matchCases s f used ty idx payload rest
 
 /-- A call whose receiver and arguments are on the value stack (`eval_call`). -/
